@@ -323,7 +323,7 @@ pub fn main(args: &Args) -> Report {
                 std::env::remove_var("NERVUSDB_HNSW_M");
             }
         }
-        let n = if thorough { 8000 } else { 1200 };
+        let n = if thorough { 40_000 } else { 1200 };
         let deadline = Instant::now() + Duration::from_secs(args.budget_s(60, 600));
         let seed = args.seed ^ (phase << 40);
         let (out, _) = par_cases(n, threads(), Some(deadline), |k| {
